@@ -19,6 +19,7 @@ RULE = (
     "against the reference over the formula (exact classes), which catches carried-over caches.  Merge conditions are "
     "constants, constraints over the same variables, and guards over a fresh variable.  Non-trivial: at least two "
     "non-empty constraint sets involved; distinct by (operation, class, constraint sets, conditions) hash."
+    " Session 4: directed scenarios - simplify/partial add/simplify before the operation, split over bridged groups of four variables, merge/combine of copies sharing an unchecked unsatisfiable group."
 )
 ASSUMPTIONS = ["claripy's Z3 translation of constraints is trusted here (it is the subject of C01)"]
 
